@@ -8,7 +8,7 @@ PROP = "C19"
 LEVEL = "exploration"
 SHARDS = {"quick": 8, "thorough": 16}
 TIMEOUT = {"quick": 900, "thorough": 7200}
-REQUIRED = {"push_len": 1500, "opcode": 170, "script_roundtrip": 250, "parse_diff": 20000, "varint": 300}
+REQUIRED = {"push_len": 1500, "opcode": 170, "script_roundtrip": 250, "parse_diff": 20000, "varint": 300, "script_history": 300}
 ANCHORS = ['script:Script.parse', 'script:Script.raw_serialize', 'script:Script.serialize', 'helper:read_varint', 'helper:encode_varint']
 RULE = ("every element length 0..521 (exhaustive) x 3 byte patterns; every non-push opcode byte (0x00, 0x4e..0xff, exhaustive); "
         "random multi-element scripts; EVERY prefix of every generated serialisation, single-byte corruptions and random byte "
@@ -146,6 +146,115 @@ def judge_parse_diff(ctx, case):
                      outcome="same", mech="C19.parse.wrong_commands" if got != want else "C19.parse.consumed")
 
 
+def judge_script_history(ctx, case):
+    """A history on LIVE Script objects: serialise, edit `cmds` in place, add, parse, serialise again ... After every
+    step the bytes each object serialises to must be the standard encoding of its CURRENT commands (and oversize
+    elements must be refused at that moment), whatever was serialised or combined before."""
+    objs = {}
+    bad = []
+
+    def check(name, step):
+        s_ = objs[name]
+        cmds = list(s_.cmds)
+        try:
+            want = rscr.raw_serialize(cmds)
+        except rscr.ScriptError:
+            want = None
+        try:
+            got, err = s_.raw_serialize(), None
+        except Exception as e:  # noqa
+            got, err = None, e
+        if want is None:
+            if err is None:
+                bad.append(("step%d.%s.oversize_serialised" % (step, name), "raise", got[:12]))
+            return
+        if err is not None:
+            bad.append(("step%d.%s.raised" % (step, name), want[:16], err))
+            return
+        if got != want:
+            bad.append(("step%d.%s.stale_or_wrong_bytes" % (step, name), want[:24], got[:24]))
+            return
+        ser = s_.serialize()
+        if ser != rscr.enc_varint(len(want)) + want:
+            bad.append(("step%d.%s.serialize" % (step, name), None, None))
+            return
+        back = mk([]).parse(BytesIO(ser))
+        if back.cmds != cmds:
+            bad.append(("step%d.%s.roundtrip" % (step, name), cmds[:3], back.cmds[:3]))
+
+    for step, op in enumerate(case["ops"]):
+        kind = op[0]
+        needs = [op[1]] if kind != "new" else []
+        if kind == "add":
+            needs.append(op[2])
+        if any(nm not in objs for nm in needs):
+            continue            # (an earlier parse of an unserialisable script created no object)
+        try:
+            if kind == "new":
+                objs[op[1]] = mk(list(op[2]))
+            elif kind == "serialize":
+                check(op[1], step)
+            elif kind == "append":
+                objs[op[1]].cmds.append(op[2])
+            elif kind == "replace":
+                if objs[op[1]].cmds:
+                    objs[op[1]].cmds[op[2] % len(objs[op[1]].cmds)] = op[3]
+            elif kind == "pop":
+                if objs[op[1]].cmds:
+                    objs[op[1]].cmds.pop()
+            elif kind == "add":
+                objs[op[3]] = objs[op[1]] + objs[op[2]]
+            elif kind == "parse":
+                try:
+                    objs[op[2]] = mk([]).parse(BytesIO(rscr.serialize(list(objs[op[1]].cmds))))
+                except rscr.ScriptError:
+                    pass
+        except Exception as e:  # noqa
+            bad.append(("step%d.%s.raised" % (step, kind), None, e))
+        if bad:
+            break
+    for name in list(objs):
+        if not bad:
+            check(name, len(case["ops"]))
+    return ctx.judge("script_history", not bad, case, None, bad[:3], cls="hist|%d" % len(case["ops"]),
+                     mech="C19.script_history." + (bad[0][0].split(".")[-1] if bad else ""))
+
+
+def gen_history(rnd):
+    names = ["A", "B", "C", "D"]
+    ops = [("new", "A", gen_script(rnd)), ("new", "B", gen_script(rnd))]
+    live = ["A", "B"]
+
+    def elem():
+        r = rnd.random()
+        if r < 0.3:
+            return rnd.choice([0x00, 0x51, 0xac, 0x87, 0xae])
+        return gen.rbytes(rnd, rnd.choice([1, 20, 33, 74, 75, 76, 77, 255, 256, 520, 521 if r > 0.93 else 32]))
+    for _ in range(rnd.randrange(4, 14)):
+        r = rnd.random()
+        x = rnd.choice(live)
+        if r < 0.3:
+            ops.append(("serialize", x))
+        elif r < 0.5:
+            ops.append(("append", x, elem()))
+        elif r < 0.62:
+            ops.append(("replace", x, rnd.randrange(0, 8), elem()))
+        elif r < 0.7:
+            ops.append(("pop", x))
+        elif r < 0.9:
+            y = rnd.choice(live)
+            z = rnd.choice(names)
+            ops.append(("add", x, y, z))
+            if z not in live:
+                live.append(z)
+        else:
+            z = rnd.choice(names)
+            ops.append(("parse", x, z))
+            if z not in live:
+                live.append(z)
+    return ops
+
+
 VARINTS = [0, 1, 0xFB, 0xFC, 0xFD, 0xFE, 0xFF, 0x100, 0xFFFE, 0xFFFF, 0x10000, 0x10001, 0xFFFFFFFE, 0xFFFFFFFF, 1 << 32, (1 << 32) + 1,
            (1 << 63), (1 << 64) - 2, (1 << 64) - 1]
 BAD_VARINTS = [1 << 64, (1 << 64) + 1, 1 << 70, -1, -0xFD, -(1 << 64)]
@@ -208,6 +317,8 @@ def run(ctx):
         cmds = gen_script(rnd)
         scripts.append(cmds)
         judge_script_roundtrip(ctx, {"cmds": cmds})
+    for _ in range(ctx.scale(400, 40000)):
+        judge_script_history(ctx, {"ops": gen_history(rnd)})
     # all prefixes + corruptions of a subset (cost is quadratic in length)
     budget = ctx.scale(30000, 3000000)
     for cmds in scripts:
@@ -265,5 +376,8 @@ def run(ctx):
 
 
 def replay(ctx, monitor, case):
+    if monitor == "script_history":
+        case["ops"] = [tuple(o) for o in case["ops"]]
+        return judge_script_history(ctx, case)
     {"push_len": judge_push_len, "opcode": judge_opcode, "script_roundtrip": judge_script_roundtrip, "parse_diff": judge_parse_diff,
      "varint": judge_varint}[monitor](ctx, case)
